@@ -225,6 +225,25 @@ def run_bin(cmd, text, timeout=1500):
     return p.stdout.split("\n")
 
 
+def run_impl_robust(cmd, lines, timeout=400):
+    """Evaluate op lines on the real code.  When the process dies (abort on allocation failure, stack overflow,
+    a signal) or hangs, the shard is bisected so that the offending line is identified and reported on its own
+    ("abort" / "hang" as the implementation's output) instead of losing the whole shard."""
+    text = "\n".join(lines) + "\n"
+    try:
+        p = subprocess.run(cmd, input=text, capture_output=True, text=True, env=ENV, timeout=timeout, preexec_fn=_limits)
+        if p.returncode == 0:
+            return p.stdout.split("\n")
+        why = "abort"
+    except subprocess.TimeoutExpired:
+        why = "hang"
+    if len(lines) == 1:
+        return [f"{why} (the process evaluating this line {'did not finish' if why == 'hang' else 'died'})"]
+    mid = len(lines) // 2
+    sub_to = max(20, timeout // 2)
+    return run_impl_robust(cmd, lines[:mid], sub_to)[:mid] + run_impl_robust(cmd, lines[mid:], sub_to)[:len(lines) - mid]
+
+
 def canon(line):
     if line.startswith("bad-op"):
         return "bad-op"
@@ -245,8 +264,14 @@ def run_ops(lines, profiles, shards=14):
             text = "\n".join(part) + "\n"
             jobs.append((p, idx, "impl", [os.path.join(TARGET, p, "harness"), "eval"], text))
             jobs.append((p, idx, "model", [os.path.join(LEAN, ".lake/build/bin/driver"), p], text))
+    def run_job(j):
+        p, idx, side, cmd, text = j
+        if side == "model":
+            return run_bin(cmd, text)
+        return run_impl_robust(cmd, parts[idx])
+
     with ThreadPoolExecutor(16) as ex:
-        outs = list(ex.map(lambda j: run_bin(j[3], j[4]), jobs))
+        outs = list(ex.map(run_job, jobs))
     res = {p: ([], []) for p in profiles}
     for (p, idx, side, _, _), out in zip(jobs, outs):
         out = out[:len(parts[idx])] if len(out) >= len(parts[idx]) else out + ["<missing>"] * (len(parts[idx]) - len(out))
@@ -258,7 +283,7 @@ def eval_one(line, profile):
     # `chunks 0` never terminates in the real code (outside C11, which requires w >= 1): never produce it while shrinking
     if re.search(r"\bchunks(vec)? 0\b", line):
         raise Broken("correspondence", "shrink", "chunks(0) excluded")
-    impl = run_bin([os.path.join(TARGET, profile, "harness"), "eval"], line + "\n", timeout=20)[0]
+    impl = run_impl_robust([os.path.join(TARGET, profile, "harness"), "eval"], [line], timeout=20)[0]
     model = run_bin([os.path.join(LEAN, ".lake/build/bin/driver"), profile], line + "\n", timeout=20)[0]
     return impl, model
 
